@@ -3,33 +3,8 @@
 From BHW Require Import Lib.Base Lib.Digits Lib.ListAux Model.Helper.
 From BHWGen Require Import Consts.
 
-(* ---- Python int(str) restricted to ASCII input: strip, sign, digits with single underscores ---- *)
-Definition is_ws (c : Z) : bool := ((9 <=? c) && (c <=? 13)) || ((28 <=? c) && (c <=? 32)).
-Definition is_digit (c : Z) : bool := (48 <=? c) && (c <=? 57).
-
-Fixpoint lstrip (s : str) : str :=
-  match s with c :: r => if is_ws c then lstrip r else s | [] => [] end.
-Definition strip (s : str) : str := rev (lstrip (rev (lstrip s))).
-
-(* after the first digit: digits, or '_' that must be followed by a digit *)
-Fixpoint digits_val (s : str) (acc : Z) (prev_us : bool) : res Z :=
-  match s with
-  | [] => if prev_us then Err else Ok acc
-  | c :: r => if is_digit c then digits_val r (acc * 10 + (c - 48)) false
-              else if (c =? 95) && negb prev_us then digits_val r acc true
-              else Err
-  end.
-Definition unsigned_val (s : str) : res Z :=
-  match s with
-  | c :: r => if is_digit c then digits_val r (c - 48) false else Err
-  | [] => Err
-  end.
-Definition py_int (s : str) : res Z :=
-  match strip s with
-  | 43 :: r => unsigned_val r                      (* '+' *)
-  | 45 :: r => rmap Z.opp (unsigned_val r)         (* '-' *)
-  | r => unsigned_val r
-  end.
+(* Python int(str) on ASCII input (strip, sign, digits with single underscores): Lib/PyInt.v, shared with Py/Interp.v *)
+From BHW Require Export Lib.PyInt.
 
 (* str(n) for an int *)
 Definition str_of_nonneg (n : Z) : str :=
